@@ -93,6 +93,7 @@ def judge_lifecycle(job, res):
     v = lifecycle_violations(job, res)
     if res["finished"]:
         v += isolation_violations(job, res)
+        v += fresh_start_violations(job, res)
     return dict(violations=v, outcome=outcome_key(job, res))
 
 
@@ -218,6 +219,37 @@ def judge_all(job, res):
         if job.get("clock", "SIM") == "SIM":
             v += judge_c04(job, res)["violations"]
     return dict(violations=v, outcome=outcome_key(job, res))
+
+
+def fresh_start_violations(job, res):
+    """'Each new episode starts from ... time 0 on every node and connection': under the simulated clock the first step of
+    every node and the first message of every connection of a later episode must carry the same times as in the first
+    episode of the job (same graph; these quantities do not depend on the schedule, the driver or the payloads)."""
+    v = []
+    if job.get("clock", "SIM") != "SIM":
+        return v
+    eps = [ep for ep in res["episodes"] if "record" in ep]
+    if len(eps) < 2:
+        return v
+    first = eps[0]["record"]
+    for ep in eps[1:]:
+        for n, nr in ep["record"].items():
+            a, b = first[n]["steps"], nr["steps"]
+            if a["seq"] and b["seq"]:
+                for f in ("ts_scheduled", "ts_start", "ts_end"):
+                    if a[f][0] != b[f][0]:
+                        v.append(("episode-first-step-time-differs-from-first-episode", (n, f, a[f][0], b[f][0], "episode", ep["eps"])))
+            for o, mb in nr["inputs"].items():
+                ma = first[n]["inputs"][o]
+                if ma["seq_out"] and mb["seq_out"]:
+                    for f in ("ts_sent", "ts_recv"):
+                        if ma[f][0] != mb[f][0]:
+                            v.append(("episode-first-message-time-differs-from-first-episode", (n, o, f, ma[f][0], mb[f][0], "episode", ep["eps"])))
+                elif ma["seq_out"] and not mb["seq_out"] and len(b["seq"]) > ma["seq_in"][0]:
+                    # the later episode ran the consumer past the step that consumed the first message in the first episode,
+                    # yet consumed nothing: its first message was held back by something left over from before
+                    v.append(("episode-first-message-missing", (n, o, "first episode: consumed by step", ma["seq_in"][0], "this episode ran", len(b["seq"]), "steps", "episode", ep["eps"])))
+    return v[:4]
 
 
 def isolation_violations(job, res):
